@@ -9,10 +9,10 @@ import structgen
 ID = "C06"
 ENV_RERUN = 40          # cases repeated from a cargo build-script environment (lib/runner.py with_build_env)
 TABLES = ["scalar", "rust_type"]      # leaf tables compared exhaustively through the hooks (coq/Check/Tables.v)
-REQUIRES = ["Agree", "StructSpec", "C06Spec", "Truth"]
+REQUIRES = ["Agree", "StructSpec", "C06Spec", "C06Repr", "Truth"]
 THEOREM_REQUIRES = ["C06"]
-THEOREMS = ["C06_holds", "C06_holds_fields", "C06_holds_fields_kf", "C06_holds_named", "C06_refuted", "C06_leaf_table"]
-PROOF_FILES = ["Proofs/GenInv.v", "Proofs/TypeDfs.v", "Proofs/StructProof.v", "Proofs/C06Proof.v", "Proofs/C06Named.v", "Properties/C06.v"]
+THEOREMS = ["C06_holds", "C06_holds_fields", "C06_holds_fields_kf", "C06_holds_named", "C06_holds_repr", "C06_refuted", "C06_leaf_table"]
+PROOF_FILES = ["Proofs/GenInv.v", "Proofs/TypeDfs.v", "Proofs/StructProof.v", "Proofs/C06Proof.v", "Proofs/C06Named.v", "Proofs/C06ReprProof.v", "Properties/C06.v"]
 RULE = ("the struct programs of C05/C08/C09 (incl. f64 scalars/vectors/matrices, all 9 matrix shapes, arrays of arrays, "
         "arrays of structs, nested structs, atomics, trailing runtime arrays) x Rust / Glam / Nalgebra; plus the leaf "
         "table enumerated exhaustively (every scalar kind x vec2-4, every matCxR in f32/f64) as single-member structs; "
@@ -127,7 +127,31 @@ def behavioural(c, r):
             kf_nonsq = bool(mm) and mm.group(1) != mm.group(2) and c["opts"].get("mv") != "Nalgebra"
             if sh != shape and not kf_nonsq:
                 return False, "%s.%s has Rust type %s (%s), the WGSL member has shape %s" % (s_["name"], fn, tn, sh, shape)
+            why = _repr_violation(c["opts"].get("mv", "Rust"), shape, tn)
+            if why:
+                return False, "%s.%s: %s" % (s_["name"], fn, why)
     return True, ""
+
+
+GLAM_VEC = re.compile(r"^\(SArr [234]%N \(SScalar (PF32|PF64|PU32|PI32)\)\)$")
+GLAM_MAT = re.compile(r"^\(SArr ([234])%N \(SArr \1%N \(SScalar (PF32|PF64)\)\)\)$")
+ANY_VEC = re.compile(r"^\(SArr [234]%N \(SScalar \w+\)\)$")
+
+
+def _repr_violation(mv, shape, tn):
+    """the leaf of a member's Rust type is written in the selected representation (coq/Spec/C06Repr.v, read off type_name);
+    only decidable here for members that ARE a vector / square matrix (arrays of them are covered by the extracted output)"""
+    if mv == "Rust" and ("glam::" in tn or "nalgebra::" in tn):
+        return "plain arrays selected, the field is %s" % tn
+    if mv == "Glam":
+        if "nalgebra::" in tn:
+            return "glam selected, the field is %s" % tn
+        if (GLAM_VEC.match(shape) or GLAM_MAT.match(shape)) and not tn.startswith("glam::"):
+            return "glam selected and glam has a type of this shape, the field is %s" % tn
+    if mv == "Nalgebra":
+        if "glam::" in tn:
+            return "nalgebra selected, the field is %s" % tn
+    return None
 
 
 def verdict_expr_noout(c, r, ir):
@@ -157,9 +181,9 @@ def verdict_expr(c, r, ir, real):
                         for s in c["truth"]) + "]"
     o = coq_options(c["opts"])
     return ('[wf %s && wf_io_structs %s; agree_res agree_C06 (gen %s ""%%string None %s) %s; '
-            'match %s with Ok o => C06_ok %s %s o && truth_shapes_ok o %s && OBSC | Panic _ => %s | _ => false end; '
-            'match %s with Ok o => C06_ok_kf %s %s o && kf_nonsquare %s %s | _ => false end]'
-            % (ir, ir, ir, o, real, real, ir, o, t, "true" if structcases.panic_expected(c) else "false", real, ir, o, ir, o)).replace("OBSC", _obs_clause(c, r))
+            'match %s with Ok o => C06_ok %s %s o && C06_repr_ok %s %s o && truth_shapes_ok o %s && OBSC | Panic _ => %s | _ => false end; '
+            'match %s with Ok o => C06_ok_kf %s %s o && C06_repr_ok %s %s o && kf_nonsquare %s %s | _ => false end]'
+            % (ir, ir, ir, o, real, real, ir, o, ir, o, t, "true" if structcases.panic_expected(c) else "false", real, ir, o, ir, o, ir, o)).replace("OBSC", _obs_clause(c, r))
 
 
 def nontrivial(c, r):
